@@ -131,6 +131,16 @@ partial def parseInstr : SExp → Option Instr
     let n ← parseAvt avt
     let b ← body.mapM parseInstr
     some (.element n b)
+  | .list [.atom "elementNS", avt, nsavt, .list body] => do
+    let n ← parseAvt avt
+    let ns ← parseAvt nsavt
+    let b ← body.mapM parseInstr
+    some (.elementNs n ns b)
+  | .list [.atom "attributeNS", avt, nsavt, .list body] => do
+    let n ← parseAvt avt
+    let ns ← parseAvt nsavt
+    let b ← body.mapM parseInstr
+    some (.attributeNs n ns b)
   | .list [.atom "attribute", avt, .list body] => do
     let n ← parseAvt avt
     let b ← body.mapM parseInstr
@@ -253,6 +263,19 @@ def parseKey : SExp → Option KeyDecl
   | _ => none
 
 def parseStylesheet : SExp → Option Stylesheet
+  | .list [.atom "stylesheet", .list globals, .list templates, .list sets, .list keys, .list strip, .list alias] => do
+    let gs ← globals.mapM parseInstr
+    let ts ← templates.mapM parseTemplate
+    let as ← sets.mapM parseAttrSet
+    let ks ← keys.mapM parseKey
+    let st ← strip.mapM atomStr
+    let al ← alias.mapM fun x => match x with
+      | .list [.atom a, .atom b] => do
+        let a' ← decodeStr a
+        let b' ← decodeStr b
+        some (a', b')
+      | _ => none
+    some { templates := ts, globals := gs, attrSets := as, keys := ks, stripSpace := st, nsAlias := al }
   | .list [.atom "stylesheet", .list globals, .list templates, .list sets, .list keys, .list strip] => do
     let gs ← globals.mapM parseInstr
     let ts ← templates.mapM parseTemplate
